@@ -435,3 +435,21 @@ def family_inputs(rng, g, n=6):
         if len(out) >= n:
             break
     return out
+
+
+def wide_grammar(rng):
+    """Many nonterminals / alternatives over few tokens: large Earley sets with dozens of
+    completed situations (many distinct reduce and transition vectors)."""
+    k = rng.randint(15, 45)
+    xs = ['X%d' % i for i in range(k)]
+    rules = [('S', [x], None, 0, [0]) for x in xs]
+    extra = rng.randint(1, 4)
+    for j in range(extra):
+        rules.append(('S', ['Y%d' % j], None, 0, [0]))
+    rng.shuffle(rules)
+    for i, x in enumerate(xs):
+        rules.append((x, ['a'] if rng.random() < 0.8 else ['a', 'a'], 'x%d' % i, rng.randint(0, 3), []))
+    for j in range(extra):
+        for v in range(rng.randint(2, 3)):
+            rules.append(('Y%d' % j, ['a'], 'y%d_%d' % (j, v), rng.randint(0, 3), [0] if rng.random() < 0.5 else []))
+    return Gram([('a', 97)], rules)
